@@ -15,13 +15,20 @@ together (`C17_attribute_actions_bound`, `Proofs/AttrCount.lean`, `Proofs/AttrTo
 per node pair at most |attrs l| + |attrs x| actions (a renamed attribute is not deleted
 afterwards), and the attributes of the nodes whose partner is still unvisited are a
 potential that every visit pays from.
-Not proved (decided per run by the change-detecting strict replay of the real script):
-"every action changes the document" (known finding R1 is the value-level exception: moves
-past value-identical siblings).
+"Every action changes the document" is proved for every action other than a move
+(`C17_non_move_actions_change`, `Proofs/Changes.lean`): in the replay of the script every insert,
+delete, rename, text, tail and attribute action yields a document whose list of payloads in
+document order (kind, tag, attributes, text, tail - the value of the document, ids aside) differs
+from the one before: a rename / text / tail update is emitted only when the value differs, an
+attribute update only to a different value, the other attribute actions add or remove a key, an
+insert adds and a delete removes a node.  For moves the clause is false of the code (known finding
+R1: a move past value-identical siblings leaves the value unchanged); moves are decided per run by
+the change-detecting strict replay of the real script.
 -/
 import XmlDiffModel.Proofs.Counts
 import XmlDiffModel.Proofs.Counts2
 import XmlDiffModel.Proofs.AttrTotal
+import XmlDiffModel.Proofs.Changes
 
 namespace XmlDiffModel
 
@@ -74,6 +81,26 @@ example :
     C17.delTargets QName.plain ⟨L, 20⟩
       [.insertNode [⟨.name "a".toList, some 1⟩] "b".toList 0,
        .deleteNode [⟨.name "a".toList, some 1⟩, ⟨.name "b".toList, some 1⟩]] = [20] := by
+  decide +kernel
+
+/-- Every action other than a move changes the document: whenever the script is `pre ++ a :: post`, the replay of
+`pre` from the left document ends in `p1` and `a` (not a move) takes `p1` to `p2`, the payload lists of the two
+documents differ.  (The replay of every prefix succeeds: `scriptGen_replay`.) -/
+theorem C17_non_move_actions_change (qn : QName) (cfg : Cfg) (L R : Tree) (M : List (Nat × Nat)) (fresh : Nat)
+    (script : List Action) (final : Tree) (hL : L.WF) (hfL : ∀ i ∈ Tree.ids L, i < fresh)
+    (hA : ∀ x ∈ Tree.bfs R, (keys x.payload.attrs).Nodup)
+    (h : scriptGen qn cfg L R M fresh = .ok (script, final)) :
+    ∀ pre a post, script = pre ++ a :: post → ∀ p1 p2, runUniq qn ⟨L, fresh⟩ pre = .ok p1 →
+      applyUniq qn p1 a = .ok p2 → C17.isMove a = false → C17.pls p2.tree ≠ C17.pls p1.tree :=
+  C17.scriptGen_changes qn cfg L R M fresh script final hL hfL hA h
+
+/-- Non-vacuity: an action that sets the text a node already has is accepted by the replay and leaves the payload
+list as it was - the conclusion above excludes such actions. -/
+example :
+    let e (t : String) : Payload := ⟨.elem, t.toList, [], none, none⟩
+    let L : Tree := .node 0 (e "a") [.node 1 (e "b") []]
+    (applyUniq QName.plain ⟨L, 20⟩ (.updateTextIn [⟨.name "a".toList, some 1⟩, ⟨.name "b".toList, some 1⟩] none)).toOption.map
+      (fun p => C17.pls p.tree) = some (C17.pls L) := by
   decide +kernel
 
 /-- Per node pair, `update_node_attr` emits no insert / rename / text / tail action. -/
